@@ -187,6 +187,14 @@ def run_shard(ctx):
             den = Product(tuple(rng.sample(fs, 2))) if i % 4 else rng.choice(fs)
             fr = Fraction(num if i % 8 else rng.choice(fs), den)
             _call(ctx, "Fraction.simplify", lambda: fr.simplify(), ge.to_src(fr), lambda res, e=fr: res != e, {"e": fr})
+            # repeated factors: a factor two or three times in the numerator and fewer times in the denominator (and the
+            # other way round) - the cancellation must remove one copy per copy
+            f0, f1 = rng.sample(fs, 2)
+            n_num, n_den = rng.choice([(2, 1), (3, 1), (3, 2), (1, 2), (2, 2)])
+            numr = Product(tuple([f0] * n_num + [f1])) if n_num + 1 > 1 else f0
+            denr = Product(tuple([f0] * n_den + ([rng.choice(fs)] if i % 3 else []))) if n_den + (1 if i % 3 else 0) > 1 else f0
+            fr2 = Fraction(numr, denr)
+            _call(ctx, "Fraction.simplify", lambda: fr2.simplify(), ge.to_src(fr2), lambda res, e=fr2: res != e, {"e": fr2})
             parts = tuple(rng.sample(fs, rng.randint(1, 3))) + ((mk(["one"]),) if i % 6 == 0 else ())
             res = _call(ctx, "Product.safe", lambda: Product.safe(parts), "|".join(map(ge.to_src, parts)), None,
                         {f"f{j}": p for j, p in enumerate(parts)})
